@@ -413,32 +413,40 @@ theorem limit_400_no_call (v : Variant) (max : Nat) (sc : Scope) (msgs : List Re
     handleHttp v max sc msgs app = { sent := [.start 400 [], finalBody] } := by
   simp [handleHttp, collect_spec max msgs ht, hbig]
 
-/-- the five ways through `run_app` -/
+/-- the six ways through `run_app` -/
 private theorem runApp_cases (v : Variant) (app : App) :
-    (∃ e, callPhase none app.call = .error e ∧ runApp v app = ⟨[], 1, 0, false, some e⟩) ∨
-    (∃ r, callPhase none app.call = .ok r ∧ app.callRaises = true ∧ runApp v app = ⟨[], 1, 0, false, some .appError⟩) ∨
-    (v = .checkAfterCall ∧ callPhase none app.call = .ok none ∧ app.callRaises = false ∧
-      runApp v app = ⟨[], 1, 0, true, some .runtimeError⟩) ∨
+    (∃ e, callPhase none app.call = .error e ∧ runApp v app = ⟨[], 1, 0, false, some e, 0⟩) ∨
+    (∃ r, callPhase none app.call = .ok r ∧ app.callRaises = true ∧ runApp v app = ⟨[], 1, 0, false, some .appError, 0⟩) ∨
+    (∃ r, callPhase none app.call = .ok r ∧ app.callRaises = false ∧ iterEscapes app = true ∧
+      runApp v app = ⟨[], 1, 0, true, some .appError, 0⟩) ∨
+    (v = .checkAfterCall ∧ callPhase none app.call = .ok none ∧ app.callRaises = false ∧ iterEscapes app = false ∧
+      runApp v app = ⟨[], 1, 0, true, some .runtimeError, 0⟩) ∨
     (∃ st hs, v = .checkAfterCall ∧ callPhase none app.call = .ok (some (st, hs)) ∧ app.callRaises = false ∧
-      runApp v app = ⟨.start st hs :: (iterate (some (st, hs)) true app.iter).1, 1, if app.hasClose then 1 else 0, true,
-        (iterate (some (st, hs)) true app.iter).2⟩) ∨
-    (∃ r, v = .checkAtFirstChunk ∧ callPhase none app.call = .ok r ∧ app.callRaises = false ∧
-      runApp v app = ⟨(iterate r false app.iter).1, 1, if app.hasClose then 1 else 0, true, (iterate r false app.iter).2⟩) := by
+      iterEscapes app = false ∧
+      runApp v app = ⟨.start st hs :: (iterate (some (st, hs)) true app.acts).1, 1, (closeCounts app).1, true,
+        (iterate (some (st, hs)) true app.acts).2, (closeCounts app).2⟩) ∨
+    (∃ r, v = .checkAtFirstChunk ∧ callPhase none app.call = .ok r ∧ app.callRaises = false ∧ iterEscapes app = false ∧
+      runApp v app = ⟨(iterate r false app.acts).1, 1, (closeCounts app).1, true, (iterate r false app.acts).2,
+        (closeCounts app).2⟩) := by
   cases hr : callPhase none app.call with
   | error e => exact .inl ⟨e, rfl, by simp [runApp, hr]⟩
   | ok r =>
     cases hcr : app.callRaises with
     | true => exact .inr (.inl ⟨r, rfl, rfl, by simp [runApp, hr, hcr]⟩)
     | false =>
-      cases v with
-      | checkAfterCall =>
-        cases r with
-        | none => exact .inr (.inr (.inl ⟨rfl, rfl, rfl, by simp [runApp, hr, hcr]⟩))
-        | some p => exact .inr (.inr (.inr (.inl ⟨p.1, p.2, rfl, rfl, rfl, by simp [runApp, hr, hcr]⟩)))
-      | checkAtFirstChunk => exact .inr (.inr (.inr (.inr ⟨r, rfl, rfl, rfl, by simp [runApp, hr, hcr]⟩)))
+      cases hesc : iterEscapes app with
+      | true => exact .inr (.inr (.inl ⟨r, rfl, rfl, rfl, by simp [runApp, hr, hcr, hesc]⟩))
+      | false =>
+        cases v with
+        | checkAfterCall =>
+          cases r with
+          | none => exact .inr (.inr (.inr (.inl ⟨rfl, rfl, rfl, rfl, by simp [runApp, hr, hcr, hesc]⟩)))
+          | some p => exact .inr (.inr (.inr (.inr (.inl ⟨p.1, p.2, rfl, rfl, rfl, rfl, by simp [runApp, hr, hcr, hesc]⟩))))
+        | checkAtFirstChunk => exact .inr (.inr (.inr (.inr (.inr ⟨r, rfl, rfl, rfl, rfl, by simp [runApp, hr, hcr, hesc]⟩))))
 
 theorem runApp_calls_once (v : Variant) (app : App) : (runApp v app).appCalls = 1 := by
-  rcases runApp_cases v app with ⟨e, _, h⟩ | ⟨r, _, _, h⟩ | ⟨_, _, _, h⟩ | ⟨st, hs, _, _, _, h⟩ | ⟨r, _, _, _, h⟩ <;> rw [h]
+  rcases runApp_cases v app with ⟨e, _, h⟩ | ⟨r, _, _, h⟩ | ⟨r, _, _, _, h⟩ | ⟨_, _, _, _, h⟩ | ⟨st, hs, _, _, _, _, h⟩ |
+    ⟨r, _, _, _, _, h⟩ <;> rw [h]
 
 /-- **at_limit_called**: for every limit and every chunking, a body of at most the limit (exactly at it included)
     reaches the application, once, in one spawned thread, with `wsgi.input` = the whole body -/
@@ -564,13 +572,13 @@ private theorem iterate_yields_unsent (st : Nat) (hs : Headers) (cs : List Bytes
     start(st, hs), one body message per chunk in order (empty chunks included, all `more_body=True`), and then exactly
     one final empty `more_body=False` message; no exception -/
 theorem output_fidelity (v : Variant) (max : Nat) (sc : Scope) (msgs : List ReqMsg) (body : Bytes) (env : Environ)
-    (call : List StartArgs) (chunks : List Bytes) (hasClose : Bool) (st : Nat) (hs : Headers)
+    (call : List StartArgs) (chunks : List Bytes) (hasClose selfIter iterHasClose : Bool) (st : Nat) (hs : Headers)
     (hc : collectBody max msgs = .complete body) (he : buildEnviron sc body = .ok env)
     (hstart : callPhase none call = .ok (some (st, hs))) :
-    let o := handleHttp v max sc msgs ⟨call, false, chunks.map .yield, hasClose⟩
+    let o := handleHttp v max sc msgs ⟨call, false, chunks.map .yield, hasClose, selfIter, false, iterHasClose⟩
     o.sent = .start st hs :: bodies chunks ++ [finalBody] ∧ o.exc = none := by
   cases v <;>
-    simp [handleHttp, hc, he, runApp, hstart, iterate_yields_sent, iterate_yields_unsent]
+    simp [handleHttp, hc, he, runApp, hstart, iterate_yields_sent, iterate_yields_unsent, iterEscapes, App.acts]
 
 private theorem callPhase_append (r : Recorded) (as bs : List StartArgs) :
     callPhase r (as ++ bs) = (match callPhase r as with | .ok r' => callPhase r' bs | .error e => .error e) := by
@@ -584,12 +592,12 @@ private theorem callPhase_append (r : Recorded) (as bs : List StartArgs) :
 
 /-- **eager_lazy_same** (repaired shape): moving the last `start_response` call from the call phase to the front of the
     iteration changes neither the messages nor the exception -/
-theorem eager_lazy_same (cs : List StartArgs) (a : StartArgs) (rest : List IterAct) (hasClose : Bool) :
-    (runApp .checkAtFirstChunk ⟨cs ++ [a], false, rest, hasClose⟩).msgs =
-      (runApp .checkAtFirstChunk ⟨cs, false, .start a :: rest, hasClose⟩).msgs ∧
-    (runApp .checkAtFirstChunk ⟨cs ++ [a], false, rest, hasClose⟩).exc =
-      (runApp .checkAtFirstChunk ⟨cs, false, .start a :: rest, hasClose⟩).exc := by
-  simp only [runApp, callPhase_append]
+theorem eager_lazy_same (cs : List StartArgs) (a : StartArgs) (rest : List IterAct) (hasClose selfIter iterHasClose : Bool) :
+    (runApp .checkAtFirstChunk ⟨cs ++ [a], false, rest, hasClose, selfIter, false, iterHasClose⟩).msgs =
+      (runApp .checkAtFirstChunk ⟨cs, false, .start a :: rest, hasClose, selfIter, false, iterHasClose⟩).msgs ∧
+    (runApp .checkAtFirstChunk ⟨cs ++ [a], false, rest, hasClose, selfIter, false, iterHasClose⟩).exc =
+      (runApp .checkAtFirstChunk ⟨cs, false, .start a :: rest, hasClose, selfIter, false, iterHasClose⟩).exc := by
+  simp only [runApp, callPhase_append, iterEscapes, App.acts, Bool.false_and, Bool.false_eq_true, if_false]
   cases callPhase none cs with
   | error e => simp
   | ok r =>
@@ -601,12 +609,13 @@ theorem eager_lazy_same (cs : List StartArgs) (a : StartArgs) (rest : List IterA
 /-- **lazy start_response** (repaired shape): a generator-style application that calls `start_response` only when first
     iterated gets the same messages as an eager one -/
 theorem lazy_output_fidelity (max : Nat) (sc : Scope) (msgs : List ReqMsg) (body : Bytes) (env : Environ)
-    (a : StartArgs) (chunks : List Bytes) (hasClose : Bool) (st : Nat) (hs : Headers)
+    (a : StartArgs) (chunks : List Bytes) (hasClose selfIter iterHasClose : Bool) (st : Nat) (hs : Headers)
     (hc : collectBody max msgs = .complete body) (he : buildEnviron sc body = .ok env)
     (hstart : startResponse a = .ok (st, hs)) :
-    let o := handleHttp .checkAtFirstChunk max sc msgs ⟨[], false, .start a :: chunks.map .yield, hasClose⟩
+    let o := handleHttp .checkAtFirstChunk max sc msgs
+      ⟨[], false, .start a :: chunks.map .yield, hasClose, selfIter, false, iterHasClose⟩
     o.sent = .start st hs :: bodies chunks ++ [finalBody] ∧ o.exc = none ∧ o.appCalls = 1 := by
-  simp [handleHttp, hc, he, runApp, callPhase, iterate, hstart, iterate_yields_unsent]
+  simp [handleHttp, hc, he, runApp, callPhase, iterate, hstart, iterate_yields_unsent, iterEscapes, App.acts]
 
 /- Full statement of the lazy clause for the code as pinned — FALSE there (F19):
      ∀ a chunks …, startResponse a = .ok (st, hs) →
@@ -621,7 +630,8 @@ private def lazyApp : App :=
 /-- negation witness for the pinned shape: a lazily starting application is rejected with RuntimeError, nothing is sent -/
 theorem lazy_start_rejected_as_is :
     ¬ (∀ (a : StartArgs) (chunks : List Bytes) (st : Nat) (hs : Headers), startResponse a = .ok (st, hs) →
-        (runApp .checkAfterCall ⟨[], false, .start a :: chunks.map .yield, true⟩).msgs = .start st hs :: bodies chunks) := by
+        (runApp .checkAfterCall ⟨[], false, .start a :: chunks.map .yield, true, true, false, false⟩).msgs =
+          .start st hs :: bodies chunks) := by
   intro h
   have := h ⟨"200 OK".toList, []⟩ [] 200 [] (by decide +kernel)
   revert this
@@ -687,23 +697,31 @@ private theorem iterate_prefix : ∀ (acts : List IterAct) (r : Recorded) (sent 
           have := hdone (by simpa [iterate] using hn)
           exact ⟨by rw [this.1], fun _ => ⟨p.1, p.2, by simp [iterate, hb, bodies]⟩⟩
 
+private theorem acts_yields_prefix (app : App) : yieldsOf app.acts <+: yieldsOf app.iter := by
+  unfold App.acts
+  split
+  · simp [yieldsOf]
+  · exact List.prefix_refl _
+
 /-- **on every path (any application, both shapes)** the messages `run_app` emits are either nothing, or one start
     message followed by body messages carrying a prefix of the chunks the iterable yields, in order, all `more_body=True` -/
 theorem emitted_is_prefix (v : Variant) (app : App) :
     ∃ cs, cs <+: yieldsOf app.iter ∧
       ((runApp v app).msgs = [] ∨ ∃ st hs, (runApp v app).msgs = .start st hs :: bodies cs) := by
-  rcases runApp_cases v app with ⟨e, _, h⟩ | ⟨r, _, _, h⟩ | ⟨_, _, _, h⟩ | ⟨st, hs, _, _, _, h⟩ | ⟨r, _, _, _, h⟩
+  rcases runApp_cases v app with ⟨e, _, h⟩ | ⟨r, _, _, h⟩ | ⟨r, _, _, _, h⟩ | ⟨_, _, _, _, h⟩ | ⟨st, hs, _, _, _, _, h⟩ |
+    ⟨r, _, _, _, _, h⟩
   · exact ⟨[], List.nil_prefix, .inl (by rw [h])⟩
   · exact ⟨[], List.nil_prefix, .inl (by rw [h])⟩
   · exact ⟨[], List.nil_prefix, .inl (by rw [h])⟩
-  · obtain ⟨cs, hpre, hshape, _⟩ := iterate_prefix app.iter (some (st, hs)) true
+  · exact ⟨[], List.nil_prefix, .inl (by rw [h])⟩
+  · obtain ⟨cs, hpre, hshape, _⟩ := iterate_prefix app.acts (some (st, hs)) true
     rcases hshape with hb | ⟨hb, _⟩
-    · exact ⟨cs, hpre, .inr ⟨st, hs, by rw [h, hb]⟩⟩
+    · exact ⟨cs, hpre.trans (acts_yields_prefix app), .inr ⟨st, hs, by rw [h, hb]⟩⟩
     · exact Bool.noConfusion hb
-  · obtain ⟨cs, hpre, hshape, _⟩ := iterate_prefix app.iter r false
+  · obtain ⟨cs, hpre, hshape, _⟩ := iterate_prefix app.acts r false
     rcases hshape with hb | ⟨_, st, hs, hb⟩
     · cases cs with
-      | nil => exact ⟨[], hpre, .inl (by rw [h]; simpa [bodies] using hb)⟩
+      | nil => exact ⟨[], List.nil_prefix, .inl (by rw [h]; simpa [bodies] using hb)⟩
       | cons c cs' =>
         -- a body message can only follow a start message: `iterate _ false` never begins with one
         exfalso
@@ -718,27 +736,37 @@ theorem emitted_is_prefix (v : Variant) (app : App) :
             | raise => simp [iterate]
             | start a => simp only [iterate]; cases startResponse a <;> simp [ih2]
             | yield c' => cases r <;> simp [iterate]
-        exact hne app.iter r c (bodies cs') (by simpa [bodies] using hb)
-    · exact ⟨cs, hpre, .inr ⟨st, hs, by rw [h, hb]⟩⟩
+        exact hne app.acts r c (bodies cs') (by simpa [bodies] using hb)
+    · exact ⟨cs, hpre.trans (acts_yields_prefix app), .inr ⟨st, hs, by rw [h, hb]⟩⟩
+
+private theorem acts_of_no_exc (app : App) (r : Recorded) (sent : Bool) (h : (iterate r sent app.acts).2 = none) :
+    app.acts = app.iter := by
+  unfold App.acts at h ⊢
+  split
+  · rename_i hi; simp [hi, iterate] at h
+  · rfl
 
 /-- **no exception ⇒ everything was delivered**: whenever `run_app` returns normally (any application, both shapes), it
     emitted one start message and then *all* chunks of the iterable in order -/
 theorem no_exception_complete (v : Variant) (app : App) (h : (runApp v app).exc = none) :
     ∃ st hs, (runApp v app).msgs = .start st hs :: bodies (yieldsOf app.iter) := by
-  rcases runApp_cases v app with ⟨e, _, hr⟩ | ⟨r, _, _, hr⟩ | ⟨_, _, _, hr⟩ | ⟨st, hs, _, _, _, hr⟩ | ⟨r, _, _, _, hr⟩ <;>
-    rw [hr] at h ⊢
+  rcases runApp_cases v app with ⟨e, _, hr⟩ | ⟨r, _, _, hr⟩ | ⟨r, _, _, _, hr⟩ | ⟨_, _, _, _, hr⟩ | ⟨st, hs, _, _, _, _, hr⟩ |
+    ⟨r, _, _, _, _, hr⟩ <;> rw [hr] at h ⊢
   · simp at h
   · simp at h
   · simp at h
-  · obtain ⟨cs, _, hshape, hdone⟩ := iterate_prefix app.iter (some (st, hs)) true
+  · simp at h
+  · have ha := acts_of_no_exc app _ _ h
+    obtain ⟨cs, _, hshape, hdone⟩ := iterate_prefix app.acts (some (st, hs)) true
     have hd := hdone h
     rcases hshape with hb | ⟨hb, _⟩
-    · exact ⟨st, hs, by simp [hb, hd.1]⟩
+    · exact ⟨st, hs, by simp only [hb, hd.1]; rw [ha]⟩
     · exact Bool.noConfusion hb
-  · obtain ⟨cs, _, _, hdone⟩ := iterate_prefix app.iter r false
+  · have ha := acts_of_no_exc app _ _ h
+    obtain ⟨cs, _, _, hdone⟩ := iterate_prefix app.acts r false
     have hd := hdone h
     obtain ⟨st, hs, hm⟩ := hd.2 rfl
-    exact ⟨st, hs, by simp [hm, hd.1]⟩
+    exact ⟨st, hs, by simp only [hm, hd.1]; rw [ha]⟩
 
 /-- the wrapper appends the final `more_body=False` message exactly when `run_app` returned normally: an error never
     looks like a complete response -/
@@ -756,27 +784,68 @@ theorem final_iff_no_exception (v : Variant) (max : Nat) (sc : Scope) (msgs : Li
 
 /-! ### close() -/
 
-theorem close_at_most_once (v : Variant) (app : App) : (runApp v app).closeCalls ≤ 1 := by
-  rcases runApp_cases v app with ⟨e, _, h⟩ | ⟨r, _, _, h⟩ | ⟨_, _, _, h⟩ | ⟨st, hs, _, _, _, h⟩ | ⟨r, _, _, _, h⟩ <;>
-    rw [h] <;> simp only [] <;> (try split) <;> omega
+open Extracted.WsgiSites in
+/-- **`close` is looked up on the object the application returned** — re-decided against the current source: the
+    extractor reads off `WSGIWrapper.run_app` what the iterated-and-closed name is bound to.  (`iter()` of the returned
+    object, taken before the `try`, would close the *iterator* instead and let an exception of `__iter__` escape.) -/
+theorem body_binding_returned : wsgiBodyBinding = .returned := by decide
+
+private theorem closeCounts_returned (app : App) : closeCounts app = (if app.hasClose then 1 else 0, 0) := by
+  simp [closeCounts, body_binding_returned]
+
+private theorem iterEscapes_false (app : App) : iterEscapes app = false := by
+  simp [iterEscapes, body_binding_returned]
+
+private theorem closeCounts_le (app : App) : (closeCounts app).1 + (closeCounts app).2 ≤ 1 := by
+  unfold closeCounts
+  split
+  · split <;> simp
+  · split
+    · split <;> simp
+    · split <;> simp
+
+/-- at most one `close()` call is ever made, whatever it is made on -/
+theorem close_at_most_once (v : Variant) (app : App) : (runApp v app).closeCalls + (runApp v app).iterCloseCalls ≤ 1 := by
+  have := closeCounts_le app
+  rcases runApp_cases v app with ⟨e, _, h⟩ | ⟨r, _, _, h⟩ | ⟨r, _, _, _, h⟩ | ⟨_, _, _, _, h⟩ | ⟨st, hs, _, _, _, _, h⟩ |
+    ⟨r, _, _, _, _, h⟩ <;> rw [h] <;> simp only [] <;> omega
 
 /-- when the callable raised there is no iterable, and nothing to close -/
 theorem no_iterable_no_close (v : Variant) (app : App) (h : (runApp v app).iterObtained = false) :
-    (runApp v app).closeCalls = 0 := by
-  rcases runApp_cases v app with ⟨e, _, hr⟩ | ⟨r, _, _, hr⟩ | ⟨_, _, _, hr⟩ | ⟨st, hs, _, _, _, hr⟩ | ⟨r, _, _, _, hr⟩ <;>
-    rw [hr] at h ⊢ <;> simp_all
+    (runApp v app).closeCalls = 0 ∧ (runApp v app).iterCloseCalls = 0 := by
+  rcases runApp_cases v app with ⟨e, _, hr⟩ | ⟨r, _, _, hr⟩ | ⟨r, _, _, _, hr⟩ | ⟨_, _, _, _, hr⟩ | ⟨st, hs, _, _, _, _, hr⟩ |
+    ⟨r, _, _, _, _, hr⟩ <;> rw [hr] at h ⊢ <;> simp_all
 
 /-- **close_once** (repaired shape, full statement): on every path on which the callable returned an iterable — normal
-    end, exception during iteration, lazy `start_response`, no `start_response` at all — `close()` is called exactly
-    once if the iterable has one -/
+    end, exception during iteration, lazy `start_response`, no `start_response` at all, an iterable that is not its own
+    iterator, an `__iter__` that raises — `close()` of *that iterable* is called exactly once if it has one, and no other
+    object is closed in its place -/
 theorem close_once (app : App) (h : (runApp .checkAtFirstChunk app).iterObtained = true) :
+    (runApp .checkAtFirstChunk app).closeCalls = (if app.hasClose then 1 else 0) ∧
+    (runApp .checkAtFirstChunk app).iterCloseCalls = 0 := by
+  rcases runApp_cases .checkAtFirstChunk app with ⟨e, _, hr⟩ | ⟨r, _, _, hr⟩ | ⟨r, _, _, he, _⟩ | ⟨hv, _⟩ | ⟨st, hs, hv, _⟩ |
+    ⟨r, _, _, _, _, hr⟩
+  · rw [hr] at h; simp at h
+  · rw [hr] at h; simp at h
+  · rw [iterEscapes_false] at he; cases he
+  · cases hv
+  · cases hv
+  · rw [hr, closeCounts_returned]; simp
+
+/-- an `__iter__` that raises is an error during iteration like any other: nothing is sent, the exception leaves
+    `run_app` (so no final message follows), and the iterable is still closed -/
+theorem iter_raises_closed (app : App) (hi : app.iterRaises = true) (h : (runApp .checkAtFirstChunk app).iterObtained = true) :
+    (runApp .checkAtFirstChunk app).msgs = [] ∧ (runApp .checkAtFirstChunk app).exc = some .appError ∧
     (runApp .checkAtFirstChunk app).closeCalls = if app.hasClose then 1 else 0 := by
-  rcases runApp_cases .checkAtFirstChunk app with ⟨e, _, hr⟩ | ⟨r, _, _, hr⟩ | ⟨hv, _⟩ | ⟨st, hs, hv, _⟩ | ⟨r, _, _, _, hr⟩
-  · rw [hr] at h; simp at h
-  · rw [hr] at h; simp at h
-  · cases hv
-  · cases hv
-  · rw [hr]
+  refine ⟨?_, ?_, (close_once app h).1⟩ <;>
+  · rcases runApp_cases .checkAtFirstChunk app with ⟨e, _, hr⟩ | ⟨r, _, _, hr⟩ | ⟨r, _, _, he, _⟩ | ⟨hv, _⟩ | ⟨st, hs, hv, _⟩ |
+      ⟨r, _, _, _, _, hr⟩
+    · rw [hr] at h; simp at h
+    · rw [hr] at h; simp at h
+    · rw [iterEscapes_false] at he; cases he
+    · cases hv
+    · cases hv
+    · rw [hr]; simp [App.acts, hi, iterate]
 
 /- Full statement for the code as pinned — FALSE there (F19):
      theorem close_once_as_is (app : App) (h : (runApp .checkAfterCall app).iterObtained = true) :
@@ -788,11 +857,13 @@ theorem close_once (app : App) (h : (runApp .checkAtFirstChunk app).iterObtained
 theorem close_once_partial (app : App) (h : (runApp .checkAfterCall app).iterObtained = true)
     (hstarted : callPhase none app.call ≠ .ok none) :
     (runApp .checkAfterCall app).closeCalls = if app.hasClose then 1 else 0 := by
-  rcases runApp_cases .checkAfterCall app with ⟨e, _, hr⟩ | ⟨r, _, _, hr⟩ | ⟨_, hn, _⟩ | ⟨st, hs, _, _, _, hr⟩ | ⟨r, hv, _⟩
+  rcases runApp_cases .checkAfterCall app with ⟨e, _, hr⟩ | ⟨r, _, _, hr⟩ | ⟨r, _, _, he, _⟩ | ⟨_, hn, _⟩ |
+    ⟨st, hs, _, _, _, _, hr⟩ | ⟨r, hv, _⟩
   · rw [hr] at h; simp at h
   · rw [hr] at h; simp at h
+  · rw [iterEscapes_false] at he; cases he
   · exact absurd hn hstarted
-  · rw [hr]
+  · rw [hr, closeCounts_returned]
   · cases hv
 
 private def noStartApp : App := { call := [], callRaises := false, iter := [.yield "result".b], hasClose := true }
@@ -812,13 +883,23 @@ example : (runApp .checkAfterCall lazyApp).iterObtained = true ∧ (runApp .chec
 example : (runApp .checkAtFirstChunk noStartApp).closeCalls = 1 ∧
     (runApp .checkAtFirstChunk noStartApp).exc = some .runtimeError ∧ (runApp .checkAtFirstChunk noStartApp).msgs = [] := by decide
 -- raise during iteration: chunks before the raise are delivered, close() runs, no final message
-example : let r := runApp .checkAfterCall ⟨[⟨"200 OK".toList, []⟩], false, [.yield "a".b, .raise, .yield "b".b], true⟩
+example : let r := runApp .checkAfterCall ⟨[⟨"200 OK".toList, []⟩], false, [.yield "a".b, .raise, .yield "b".b], true, true, false, false⟩
     r.msgs = [.start 200 [], .body "a".b true] ∧ r.exc = some .appError ∧ r.closeCalls = 1 := by decide +kernel
 -- raise before / after start_response in the call phase: nothing is sent, there is no iterable
-example : (runApp .checkAfterCall ⟨[⟨"200 OK".toList, []⟩], true, [.yield "a".b], true⟩).msgs = [] ∧
-    (runApp .checkAfterCall ⟨[], true, [], true⟩).iterObtained = false := by decide +kernel
+example : (runApp .checkAfterCall ⟨[⟨"200 OK".toList, []⟩], true, [.yield "a".b], true, true, false, false⟩).msgs = [] ∧
+    (runApp .checkAfterCall ⟨[], true, [], true, true, false, false⟩).iterObtained = false := by decide +kernel
 -- a status line without a space / a header outside Latin-1 make start_response itself raise
 example : startResponse ⟨"200".toList, []⟩ = .error .valueError ∧
     startResponse ⟨"200 OK".toList, [("x".toList, [Char.ofNat 0x4E2D])]⟩ = .error .unicodeEncodeError := by decide +kernel
+-- a resource-holding container whose `__iter__` is a generator (PEP 3333's classic shape): the container is closed, once,
+-- on success, after an error in the middle, and when `__iter__` itself raises; the generator's own close() is not a substitute
+private def containerApp (acts : List IterAct) (iterRaises : Bool) : App :=
+  { call := [⟨"200 OK".toList, []⟩], callRaises := false, iter := acts, hasClose := true, selfIter := false,
+    iterRaises := iterRaises, iterHasClose := true }
+example : (runApp .checkAtFirstChunk (containerApp [.yield "a".b] false)).closeCalls = 1 ∧
+    (runApp .checkAtFirstChunk (containerApp [.yield "a".b] false)).iterCloseCalls = 0 ∧
+    (runApp .checkAtFirstChunk (containerApp [.yield "a".b, .raise] false)).closeCalls = 1 ∧
+    (runApp .checkAtFirstChunk (containerApp [.yield "a".b] true)).closeCalls = 1 ∧
+    (runApp .checkAtFirstChunk (containerApp [.yield "a".b] true)).exc = some .appError := by decide +kernel
 
 end HC.Props.C17
